@@ -14,7 +14,15 @@
 (***************************************************************************)
 EXTENDS Integers, Sequences, FiniteSets, TLC, Json
 
-CONSTANTS MaxHist, Inits, MutParams, ObsKinds
+CONSTANTS
+  \* @type: Int;
+  MaxHist,
+  \* @type: Set(Str);
+  Inits,
+  \* @type: Set(Str);
+  MutParams,
+  \* @type: Set(Str);
+  ObsKinds
 
 VARIABLES
   \* [Params -> value id]: what a scene built from scratch would be given
@@ -43,8 +51,11 @@ Values(p) == IF p \in ModelParams THEN 1..3 ELSE IF p \in Repoint THEN {1} ELSE 
 
 Caches == {"pm", "pmat", "att", "bm", "bgeom", "lseg", "lmat"}
 \* what each piece of derived state is a function of: the parameters it reads (the ancestor transform only under the node)
+\* @type: (Str -> Int) => Set(Str);
 PlasmaPlaceP(c) == {"P_xf", "P_parent"} \cup (IF c["P_parent"] = 2 THEN {"N_xf"} ELSE {})
+\* @type: (Str -> Int) => Set(Str);
 BeamPlaceP(c)   == {"B_xf", "B_parent"} \cup (IF c["B_parent"] = 2 THEN {"N_xf"} ELSE {})
+\* @type: (Str, Str -> Int) => Set(Str);
 DepP(k, c) ==
   CASE k = "pm"    -> {"P_comp", "P_adata", "P_models"}                                  \* species, rates, wavelengths, line shapes of plasma models
     [] k = "pmat"  -> {"P_models", "P_adata", "P_integ", "P_geom", "P_geomT"}             \* attached primitive + PlasmaMaterial
@@ -56,6 +67,7 @@ DepP(k, c) ==
     [] k = "lmat"  -> {"L_models", "L_spectrum", "L_profile", "LP_length", "LP_radius", "L_integ", "L_importance",
                         "L_xf"} \cup PlasmaPlaceP(c)                                     \* LaserMaterial per segment (caches transforms)
 \* the projection of configuration c a piece of derived state is computed from (other parameters masked to 0)
+\* @type: (Str, Str -> Int) => (Str -> Int);
 Proj(k, c) == [p \in Params |-> IF p \in DepP(k, c) THEN c[p] ELSE 0]
 Zero == [p \in Params |-> 0]
 Eager == {"pmat", "bgeom", "lseg", "lmat"}      \* rebuilt inside the setter; the others are filled by the next observation
@@ -65,6 +77,7 @@ Notifiers == {"plasma", "comp", "pmodels", "beam", "bmodels", "att", "profile"}
 Ops == {"pconf", "bconf", "aconf", "achange", "bmchange", "lconfmat", "lconfgeo"}
 
 \* which notifiers a setter fires / which direct calls it makes (Appendix A of DESIGN.md)
+\* @type: (Str, Str -> Int) => Set(Str);
 Fires(p, c) ==
   CASE p \in {"P_bfield", "P_edist", "P_xf", "P_parent"} -> {"plasma"}
     [] p = "P_comp"   -> {"comp"}
@@ -107,11 +120,15 @@ OpEffect(o) ==
 
 \* notifiers fired transitively (cascades are at most one level deep in this wiring, two rounds suffice)
 Close(N) == LET N1 == N \cup UNION {Listen(n).cascade : n \in N} IN N1 \cup UNION {Listen(n).cascade : n \in N1}
+\* @type: (Str, Str -> Int) => Set(Str);
 OpsRun(p, c) == Direct(p) \cup UNION {Listen(n).ops : n \in Close(Fires(p, c))}
+\* @type: (Str, Str -> Int) => Set(Str);
 Cleared(p, c) == UNION {Listen(n).clear : n \in Close(Fires(p, c))} \cup UNION {OpEffect(o).clear : o \in OpsRun(p, c)}
+\* @type: (Str, Str -> Int) => Set(Str);
 Rebuilt(p, c) == UNION {OpEffect(o).rebuild : o \in OpsRun(p, c)}
 
 \* the callbacks registered on a notifier (owner class . method), as the code registers them: used by trace validation
+\* @type: (Str, Str -> Int) => Set(Str);
 CallbackNames(n, c) ==
   CASE n = "plasma"  -> {"BeamAttenuator._change", "Laser._plasma_changed"}
                         \cup (IF c["P_models"] # 3 THEN {"PlasmaModel._change"} ELSE {})
@@ -123,10 +140,12 @@ CallbackNames(n, c) ==
     [] n = "att"     -> {"Beam._modified", "Beam._configure_geometry"}
     [] n = "profile" -> {"Laser.configure_geometry"}
 \* callbacks that must be notified when parameter p is set (c = configuration after the assignment)
+\* @type: (Str, Str -> Int) => Set(Str);
 Required(p, c) == UNION {CallbackNames(n, c) : n \in Close(Fires(p, c))}
 
 FreshFilled    == [k \in Caches |-> k \in Eager]
 ObservedFilled == [k \in Caches |-> TRUE]
+\* @type: (Str -> Bool, Str -> Int) => (Str -> (Str -> Int));
 AtFor(fl, c)   == [k \in Caches |-> IF fl[k] THEN Proj(k, c) ELSE Zero]
 \* history entries are records with a fixed set of fields (unused ones keep their defaults)
 \* @type: () => {op: Str, p: Str, v: Int, via: Str, fired: Set(Str), ops: Set(Str), k: Str, observed: Bool};
